@@ -7,7 +7,7 @@ A_RNG = "A-RNG: rand::thread_rng().gen_range(lo..hi) returns some value in lo..h
 A_ORD = "A-ORD: the element type's Ord/PartialOrd is a lawful total order and Clone returns an equal value (lawful_ord / lawful_clone are preconditions; proved non-vacuous for u64, i64, usize)"
 A_STD = "A-STD: contracts of std functions used by the bodies (binary_search, sort_unstable, dedup, split_at_mut, Option/Vec basics) as stated in shim/"
 A_VERUS = "Verus 0.2026.09.13 + Z3 are sound; arithmetic overflow is checked by Verus on the executable text"
-A_EXTRACT = "the extractor copies bodies byte-for-byte apart from the rewrites R1-R17 listed in DESIGN.md 8a; the generated text is re-derived from /repo on every run"
+A_EXTRACT = "the extractor copies bodies byte-for-byte apart from the rewrites R1-R18 listed in DESIGN.md 8a; the generated text is re-derived from /repo on every run"
 A_ENUM = "bounded enumerations run the real crate (cfg hook on) and are complete only up to the stated bound"
 
 # witness search used when a Verus obligation of that function fails (replay enumeration name)
@@ -24,6 +24,7 @@ WITNESS = {
     "EquiSpaced::build": "strategies",
     "EquiSpaced::new": "strategies",
     "_get_many_from_sorted_mut_unchecked": "select_many",
+    "quantiles_axis_mut_inner": "quantiles",
     "inner_weighted_var": "moments", "weighted_var": "moments", "weighted_std": "moments", "horner_method": "moments", "moments": "moments",
     "entropy": "entropy", "kl_divergence": "entropy", "cross_entropy": "entropy",
     "cov": "cov", "pearson_correlation": "cov",
@@ -105,7 +106,8 @@ PROPS = {
         "level_note": "bounded: axis lengths <= 2, ranks <= 3; value-independence of the guards is by inspection of the guard expressions (len/shape/q comparisons), not proved; strategies' EmptyInput/Strategy mapping is exercised by enum:strategies (C12)",
         "technique": "exhaustive bounded decision table on the real crate + Verus contract on EquiSpaced::new",
         "design_ref": "DESIGN.md 4 (C17)",
-        "verus": [("equispaced", "N"), ("minmax", "N"), ("deviation", "N"), ("means", "N"), ("moments", "N"), ("entropy", "N"), ("cov", "N")],
+        "verus": [("equispaced", "N"), ("minmax", "N"), ("deviation", "N"), ("means", "N"), ("moments", "N"), ("entropy", "N"), ("cov", "N"), ("qglue", "N")],
+        "contract_sync": [("shim/qglue.rs", "pub fn get_many_from_sorted_mut_unchecked<A>(", "units/sort.tpl.rs", "id=get_many_from_sorted_mut_unchecked>>pub fn get_many_from_sorted_mut_unchecked<A>(")],
         "enum": [{"name": "errors"}],
         "assumptions": [A_ENUM, A_VERUS, A_EXTRACT, BOUNDED_NOTE],
         "not_decided": ["shapes with an axis longer than 2 or rank above 3"],
@@ -145,10 +147,11 @@ PROPS.update({
     "C01": {
         "level": "proof",
         "level_text": "decomposed along the call chain of quantiles_axis_mut: (1) selection - Verus proves on the extracted src/sort.rs bodies that the value fetched for index k is the k-th order statistic of the lane under every pivot sequence (C02 cone); (2) strategy kernels - loop-free full-domain Kani harnesses on the real Interpolate impls prove for i8..i64/u8..u64 that Lower/Higher return exactly the requested neighbour and that Midpoint lies in [lower, higher] within one unit of the exact midpoint whenever the spread is representable (complete proofs); (3) index pair and Nearest - Kani with q fully symbolic, len enumerated (bounded); (4) the glue of quantiles_axis_mut (q validation, Zip over lanes, IndexMap read-back, shapes, request order) is outside both verifiers and is enumerated on the real API against a sort-based oracle (bounded)",
-        "level_note": "counted as proof: Verus queries of the sort unit + 11 complete Kani kernels. NOT counted (bounded): index/Nearest harnesses (len in {1..5,7,10}), Linear kernel (i8/u8 only, thorough), enum:quantiles (lanes <= 4/5, 4 element types, shapes up to 4-D, 5 strategies, layouts, pivot scripts). Not decided: Midpoint/Linear on N64 beyond a 1e-9 relative tolerance; 2 recorded findings (signed spread overflow in Midpoint and Linear)",
+        "level_note": "ALSO PROVED (unit qglue): the inner function quantiles_axis_mut of src/quantile/mod.rs, in which every quantile routine ends, is verified from its extracted body for arrays of every dimensionality, every axis, every list of quantiles and every strategy (strategy kernels and the float index functions enter as abstract contracts; the per-lane bulk selection with the contract proved in unit sort; the Zip over pairs of lanes and the iter_mut().zip() loop are lowered mechanically, R11c/R11d): InvalidQuantile with the first offending q before EmptyInput for a zero-length axis; result shape = data shape with the axis replaced by the number of quantiles; entry t of lane j = strategy interpolation of the order statistics floor/ceil(q_t (n-1)) of that lane; every lane is left a permutation of itself. counted as proof: Verus queries of the sort unit + 11 complete Kani kernels. NOT counted (bounded): index/Nearest harnesses (len in {1..5,7,10}), Linear kernel (i8/u8 only, thorough), enum:quantiles (lanes <= 4/5, 4 element types, shapes up to 4-D, 5 strategies, layouts, pivot scripts). Not decided: Midpoint/Linear on N64 beyond a 1e-9 relative tolerance; 2 recorded findings (signed spread overflow in Midpoint and Linear)",
         "technique": "Verus contracts on extracted selection code + loop-free Kani kernels on the real interpolation strategies; bounded enumeration of the n-D glue",
         "design_ref": "DESIGN.md 4 (C01)",
-        "verus": [("sort", "N")],
+        "verus": [("sort", "N"), ("qglue", "N")],
+        "contract_sync": [("shim/qglue.rs", "pub fn get_many_from_sorted_mut_unchecked<A>(", "units/sort.tpl.rs", "id=get_many_from_sorted_mut_unchecked>>pub fn get_many_from_sorted_mut_unchecked<A>(")],
         "also_tags": ["C02"],
         "kani": {"complete": KERN_COMPLETE, "bounded_quick": INDEX_HARNESSES, "bounded_thorough": LINEAR_HARNESSES, "bound": KANI_BOUND},
         "enum": [{"name": "quantiles"}],
@@ -159,10 +162,11 @@ PROPS.update({
     "C19": {
         "level": "proof",
         "level_text": "the order laws follow from facts established per component: selection returns order statistics whatever the pivots and whatever permutation of the lane is stored (Verus, C02 cone: the contract speaks about the multiset only); the index pair is monotone in q, adjacent, equal exactly when the fraction is 0, 0 at q=0 and N-1 at q=1 (Kani, q symbolic, len enumerated: bounded); kernels: Lower/Higher exact, Midpoint within [lower, higher] and equal to both when they coincide (Kani complete). The API-level laws (monotone in q, min/max at 0/1, Lower <= others <= Higher, coincidence at integral positions, permutation invariance, commuting with increasing relabellings) are additionally enumerated without an oracle",
-        "level_note": "counted as proof: sort-unit Verus queries + complete kernels; bounded: index harnesses, enum:qlaws (lanes <= 4/5 over i32, i8, N64; all permutations for N <= 4), enum:quantiles. Float Linear 'up to one ulp': not decided",
+        "level_note": "ALSO PROVED (unit qglue): the inner function quantiles_axis_mut of src/quantile/mod.rs, in which every quantile routine ends, is verified from its extracted body for arrays of every dimensionality, every axis, every list of quantiles and every strategy (strategy kernels and the float index functions enter as abstract contracts; the per-lane bulk selection with the contract proved in unit sort; the Zip over pairs of lanes and the iter_mut().zip() loop are lowered mechanically, R11c/R11d): InvalidQuantile with the first offending q before EmptyInput for a zero-length axis; result shape = data shape with the axis replaced by the number of quantiles; entry t of lane j = strategy interpolation of the order statistics floor/ceil(q_t (n-1)) of that lane; every lane is left a permutation of itself. counted as proof: sort-unit Verus queries + complete kernels; bounded: index harnesses, enum:qlaws (lanes <= 4/5 over i32, i8, N64; all permutations for N <= 4), enum:quantiles. Float Linear 'up to one ulp': not decided",
         "technique": "Verus selection contracts + Kani kernel/index harnesses; oracle-free bounded law enumeration",
         "design_ref": "DESIGN.md 4 (C19)",
-        "verus": [("sort", "N")],
+        "verus": [("sort", "N"), ("qglue", "N")],
+        "contract_sync": [("shim/qglue.rs", "pub fn get_many_from_sorted_mut_unchecked<A>(", "units/sort.tpl.rs", "id=get_many_from_sorted_mut_unchecked>>pub fn get_many_from_sorted_mut_unchecked<A>(")],
         "also_tags": ["C02"],
         "kani": {"complete": KERN_COMPLETE, "bounded_quick": INDEX_HARNESSES, "bounded_thorough": LINEAR_HARNESSES, "bound": KANI_BOUND},
         "enum": [{"name": "qlaws"}],
@@ -172,10 +176,11 @@ PROPS.update({
     "C18": {
         "level": "proof",
         "level_text": "bulk selection equals single selection: Verus proves that every entry of get_many_from_sorted_mut and the result of get_from_sorted_mut satisfy the same specification selected_at(array, i, .) on a permutation of the same input, which determines the value up to order-equivalence (and exactly for total orders that coincide with equality), for every request list and pivot sequence. quantile_axis_mut is literally quantiles_axis_mut with one q followed by index_axis_move; the bulk/single agreement of the quantile API and of the per-axis weighted sums/means is enumerated on the real crate",
-        "level_note": "counted as proof: sort unit. bounded: enum:quantiles (bulk slice j vs single call, request lists with repeats/empty), enum:select_many, enum:means (per-axis forms vs per-lane whole-array routine). Not decided: central_moments(p)[k] vs central_moment(k) bit for bit and the float per-axis variance (float closure chains, powi)",
+        "level_note": "ALSO PROVED (unit qglue): in quantiles_axis_mut every entry of the bulk result is specified per (lane, q) independently of the other requested quantiles - the same specification the single-q call (a one-element list) gets. counted as proof: sort unit. bounded: enum:quantiles (bulk slice j vs single call, request lists with repeats/empty), enum:select_many, enum:means (per-axis forms vs per-lane whole-array routine). Not decided: central_moments(p)[k] vs central_moment(k) bit for bit and the float per-axis variance (float closure chains, powi)",
         "technique": "Verus contracts shared by the bulk and single selection routines; bounded enumeration for the quantile / per-axis glue",
         "design_ref": "DESIGN.md 4 (C18)",
-        "verus": [("sort", "N"), ("moments", "N")],
+        "verus": [("sort", "N"), ("moments", "N"), ("qglue", "N")],
+        "contract_sync": [("shim/qglue.rs", "pub fn get_many_from_sorted_mut_unchecked<A>(", "units/sort.tpl.rs", "id=get_many_from_sorted_mut_unchecked>>pub fn get_many_from_sorted_mut_unchecked<A>(")],
         "enum": [{"name": "select_many", "abort_props": ["C02"]}, {"name": "quantiles", "abort_props": ["C01"]}, {"name": "means", "abort_props": ["C06"]}],
         "assumptions": [A_ND, A_RNG, A_ORD, A_STD, A_VERUS, A_EXTRACT, A_ENUM, BOUNDED_NOTE],
         "not_decided": ["central_moments(p)[k] == central_moment(k) and per-axis weighted variance vs the whole-array routine: proved in exact arithmetic only (unit moments, assumption A-REAL: both sides equal the same formula); bit-for-bit equality of the floating-point results is bounded (sampled f64 arrays, orders 0..10, ddof in {0, .5, 1})"],
@@ -183,10 +188,11 @@ PROPS.update({
     "C03": {
         "level": "proof",
         "level_text": "Verus proves permutation postconditions (multiset of the view after = multiset before) for partition_mut, get_from_sorted_mut, the bulk selection core/middle/wrapper and remove_nan_mut (result + missing tail = input multiset, tail stays in the parent) on the extracted bodies; the only mutation primitive those bodies use is swap on the view (A-ND: it touches exactly those two logical elements), so nothing outside the view can change. The n-D forms (quantile*_axis_mut, quantile_axis_skipnan_mut, map_axis_skipnan_mut) delegate lane by lane through ndarray's lanes_mut/map_axis_mut: lane independence and the frame are enumerated with guard elements around stepped views",
-        "level_note": "counted as proof: sort and nan units. bounded: enum:quantiles (lanes keep their multisets, guards of a stepped parent intact, every axis), enum:nanview (frame at the memory level), enum:skipnan (map_axis_skipnan_mut / quantile_axis_skipnan_mut keep lane multisets), enum:select",
+        "level_note": "ALSO PROVED (unit qglue): quantiles_axis_mut leaves the shape unchanged and every lane along the axis a permutation of itself (lanes are taken out and put back one position at a time: A-ND lanes). counted as proof: sort and nan units. bounded: enum:quantiles (lanes keep their multisets, guards of a stepped parent intact, every axis), enum:nanview (frame at the memory level), enum:skipnan (map_axis_skipnan_mut / quantile_axis_skipnan_mut keep lane multisets), enum:select",
         "technique": "Verus multiset postconditions + frame through the trusted swap/sub-view contracts; bounded guard-element enumeration for the n-D forms",
         "design_ref": "DESIGN.md 4 (C03)",
-        "verus": [("sort", "N"), ("nan", "N")],
+        "verus": [("sort", "N"), ("nan", "N"), ("qglue", "N")],
+        "contract_sync": [("shim/qglue.rs", "pub fn get_many_from_sorted_mut_unchecked<A>(", "units/sort.tpl.rs", "id=get_many_from_sorted_mut_unchecked>>pub fn get_many_from_sorted_mut_unchecked<A>(")],
         "enum": [{"name": "partition", "abort_props": ["C15"]}, {"name": "select", "abort_props": ["C02"]}, {"name": "quantiles", "abort_props": ["C01"]}, {"name": "nanview", "abort_props": ["C04"]}, {"name": "skipnan", "abort_props": ["C14", "C04"]}],
         "assumptions": [A_ND, A_RNG, A_ORD, A_STD, A_VERUS, A_EXTRACT, A_ENUM, BOUNDED_NOTE],
         "not_decided": [],
